@@ -21,7 +21,7 @@ theorem readFT_none {nc : NcFile} (h : nc.formulaTerms = []) (v : NcVar) (c : En
   | some cn => simp [h]
 
 theorem readB_empty {nc : NcFile} (h1 : nc.formulaTerms = []) (h2 : nc.gridMapping = []) (v : NcVar) (cons : List Entry) :
-    readB nc v cons = ⟨[], [], []⟩ := by
+    readB nc v cons = ⟨[], [], [], []⟩ := by
   unfold readB
   have : (cons.filter Entry.isCoordinate).filterMap (readFT nc v) = [] := by
     apply List.filterMap_eq_nil_iff.mpr
